@@ -25,17 +25,18 @@ structure CGraph where
   pkgs : List Path               -- registered packages
   pkgOf : Nat → Path             -- `t.Label.PackageName`
   inputs : Nat → List Path       -- sources and data of `t`, relative to its package
-  tools : Nat → List Path        -- local file tools of `t` (specification only: `HasSource` never reads them)
+  tools : Nat → List Path        -- local file tools of `t` (`AllTools()` that are `FileLabel`s)
 
 /-- `s == source || strings.HasPrefix(source, s+"/")` on clean paths -/
 def matchesInput (s rel : Path) : Bool := s == rel || (s.length < rel.length && s.isPrefixOf rel)
 
-/-- `target.HasAbsoluteSource(filename)`: `strings.TrimPrefix(filename, pkg+"/")`, then `HasSource` -/
+/-- `target.HasAbsoluteSource(filename)`: `strings.TrimPrefix(filename, pkg+"/")`, then `HasSource`, then the file tools -/
 def hasAbsoluteSource (C : CGraph) (t : Nat) (file : Path) : Bool :=
   let pkg := C.pkgOf t
   -- the root package has the empty name: TrimPrefix(file, "/") changes nothing
   let rel := if pkg != [] && pkg.isPrefixOf file then file.drop pkg.length else file
-  (C.inputs t).any fun s => matchesInput s rel
+  -- `HasSource` (sources and data), then the file tools
+  ((C.inputs t).any fun s => matchesInput s rel) || ((C.tools t).any fun s => matchesInput s rel)
 
 /-- the `for dir := filename; dir != "." && dir != "/"; { dir = filepath.Dir(dir); … }` loop: the closest
 enclosing directory of `file` that is a package, if any (`fuel` = number of components) -/
